@@ -26,7 +26,7 @@ ASSUMPTIONS = ['the reset request\'s own hit may be counted in the totals it ret
 REQUIRED_REACH = ['A:reports-compared', 'A:resets', 'A:outcome:200', 'A:outcome:redirect', 'A:outcome:raised-4xx',
                   'A:outcome:returned-4xx', 'A:outcome:uncaught', 'A:outcome:404', 'A:outcome:405', 'A:outcome:fallthrough',
                   'A:outcome:slash-redirect', 'B:stores-driven-past-capacity', 'B:shrink-then-grow', 'B:ops-checked',
-                  'B:route-stat-reservoir', 'B:default-capacity-filled']
+                  'B:route-stat-reservoir', 'B:default-capacity-filled', 'A:count-beyond-sample-capacity']
 NSHARDS = 16
 
 ROUTES = [('/ok', 'ok'), ('/item/<x>', 'ok'), ('/moved', 'redirect'), ('/deny', 'raise403'), ('/gone', 'return410'),
@@ -181,6 +181,26 @@ def part_a_history(sh, rng, steps):
     sh.case({'part': 'A', 'log': log}, nontrivial=nontrivial, klass='A:history', sample={'steps': log[:10], 'final': sorted(map(str, want.items()))[:8]})
 
 
+def part_a_long(sh, rng):
+    """one route hit more often than its sample store can hold: counts are exact, samples are bounded"""
+    app, mw = build_app()
+    n_ok = 2 ** 14 + rng.randint(5, 400)
+    n_deny = rng.randint(3, 40)
+    for i in range(n_ok):
+        probe.request(app, 'GET', '/ok', trace=spies.new_trace())
+        if i < n_deny:
+            probe.request(app, 'GET', '/deny', trace=spies.new_trace())
+    report, err = read_report(app)
+    sh.hit('A:reports-compared')
+    sh.hit('A:count-beyond-sample-capacity')
+    sh.case({'part': 'A-long', 'n_ok': n_ok, 'n_deny': n_deny}, nontrivial=True, klass='A:long-history',
+            sample={'requests_to_/ok': n_ok, 'requests_to_/deny': n_deny, 'report': str(sorted(report.items())) if report else err})
+    want = {('/ok', '200'): n_ok, ('/deny', '403'): n_deny}
+    if err or report != want:
+        sh.violation('C19/counts-differ:beyond-sample-capacity', 'after %d requests to /ok and %d to /deny the report says %r (%s)'
+                     % (n_ok, n_deny, report, err), {'part': 'A-long'})
+
+
 # ---- part B ----------------------------------------------------------------------------------------------------------
 _contract = {'installed': False, 'evaluations': 0, 'unavailable': 0, 'broken': []}
 
@@ -329,6 +349,8 @@ def plan(tier, seed):
     specs = [{'label': 'rand-%d' % i, 'index': i, 'a': 32 if tier == 'quick' else 3200, 'b': 700 if tier == 'quick' else 125000,
               'timeout': 7200} for i in range(NSHARDS)]
     # the default 16 384-slot store, without the per-call invariant (it copies the store on every call)
+    # counts beyond the per-status sample capacity (2**14): the report must keep counting
+    specs += [{'label': 'A-long-%d' % i, 'index': i, 'kind': 'A-long', 'timeout': 7200} for i in range(1 if tier == 'quick' else 4)]
     specs += [{'label': 'default-cap-%d' % i, 'index': i, 'kind': 'default-cap', 'n': 2 if tier == 'quick' else 40, 'timeout': 7200}
               for i in range(2)]
     return specs
@@ -336,6 +358,9 @@ def plan(tier, seed):
 
 def run_shard(sh, spec):
     rng = Rng(spec['seed'], PROPERTY, spec['label'])
+    if spec.get('kind') == 'A-long':
+        part_a_long(sh, rng)
+        return
     if spec.get('kind') == 'default-cap':
         for _ in range(spec['n']):
             part_b_history(sh, rng, rng.randrange(1 << 30), default_cap=True)
@@ -354,6 +379,9 @@ def run_shard(sh, spec):
 
 def replay(sh, case, spec):
     install_contract()
+    if case.get('part') == 'A-long':
+        part_a_long(sh, Rng(0, 'replay'))
+        return
     if case.get('part') == 'A':
         app, mw = build_app()
         for method, path in case['log']:
